@@ -158,13 +158,20 @@ def run(prop, tier, seed, args):
             init, blk = extract_builder(os.path.join(repo, "src/trait_handlers/%s/panic.rs" % rel))
             blocks[key] = blk
             edits.append("%s/panic.rs: kept `%s`; dropped initialiser `%s` (syn) and the syn::Error construction" % (rel, re.sub(r"\s+", " ", blk)[:90], init[:60]))
-        sel = extract_select(os.path.join(repo, "src/common/tools/discriminant_type.rs")).replace("Self::", "DT::")
-        step = extract_step(os.path.join(repo, "src/common/tools/discriminant_type.rs"))
     except Exception as ex:
         msg = "extraction anchor lost: %r" % (ex,)
         runlib.eprint("UNDECIDED C17: " + msg)
         _evidence(prop, tier, seed, t0, {}, [("C17/extraction", msg)], {}, [], [])
         return 2
+    # the arithmetic part is best effort: a lost anchor drops it (noted), the builders are still decided
+    sel = step = None
+    arith_dropped = None
+    try:
+        sel = extract_select(os.path.join(repo, "src/common/tools/discriminant_type.rs")).replace("Self::", "DT::")
+        step = extract_step(os.path.join(repo, "src/common/tools/discriminant_type.rs"))
+    except Exception as ex:
+        arith_dropped = "discriminant arithmetic obligations dropped: extraction anchor lost in discriminant_type.rs (%r)" % (ex,)
+        runlib.eprint("NOTE C17: " + arith_dropped)
     # ---- Kani (bounded)
     unw = MAXTAIL + 12
     with open(os.path.join(work, "k", "src", "lib.rs"), "w") as f:
@@ -204,18 +211,22 @@ def run(prop, tier, seed, args):
     r = res.get("h::canary_hash_builder_wrong_contract")
     canaries["kani:builder-wrong-contract"] = "refuted" if (r and not r["ok"] and not r.get("tool_failure")) else "NOT refuted"
     # ---- Verus (unbounded) on the selection arithmetic
-    vpath = os.path.join(work, "select.rs")
-    open(vpath, "w").write(VERUS_SELECT % {"expr": sel, "step": step})
-    p = subprocess.run(["verus", vpath, "--output-json", "--time"], cwd=work, stdout=subprocess.PIPE, stderr=subprocess.PIPE, text=True)
     vstats = {"functions": 0, "verified": 0, "smt_ms": 0}
-    try:
-        j = json.loads(p.stdout[p.stdout.index("{"):])
-        bd = runlib.Job._breakdown(j)
-        vstats["smt_ms"] = j["times-ms"]["smt"]["total"]
-    except Exception:
-        j, bd = None, {}
-    for fn, oname, contract in (("select::select", "C17/discriminant_type/select/ensures", "selected type fits min and max and is the narrowest that does; no overflow in the comparisons"),
-                                ("select::step", "C17/discriminant_type/step/ensures", "min/max/counter update: no overflow, no panic (saturating_add)")):
+    bd = {}
+    class _P: stderr = ""
+    p = _P()
+    if sel is not None:
+        vpath = os.path.join(work, "select.rs")
+        open(vpath, "w").write(VERUS_SELECT % {"expr": sel, "step": step})
+        p = subprocess.run(["verus", vpath, "--output-json", "--time"], cwd=work, stdout=subprocess.PIPE, stderr=subprocess.PIPE, text=True)
+        try:
+            j = json.loads(p.stdout[p.stdout.index("{"):])
+            bd = runlib.Job._breakdown(j)
+            vstats["smt_ms"] = j["times-ms"]["smt"]["total"]
+        except Exception:
+            j, bd = None, {}
+    for fn, oname, contract in ([] if sel is None else (("select::select", "C17/discriminant_type/select/ensures", "selected type fits min and max and is the narrowest that does; no overflow in the comparisons"),
+                                ("select::step", "C17/discriminant_type/step/ensures", "min/max/counter update: no overflow, no panic (saturating_add)"))):
         vstats["functions"] += 1
         if fn not in bd:
             results[oname] = {"status": "undecided", "engine": "verus", "detail": "no obligation reported: " + runlib._short(p.stderr, 800), "contract": contract}
@@ -224,7 +235,10 @@ def run(prop, tier, seed, args):
             vstats["verified"] += 1
         else:
             results[oname] = {"status": "failed", "engine": "verus", "detail": runlib._short(p.stderr, 2000), "contract": contract}
-    canaries["verus:select-wrong-contract"] = "refuted" if bd.get("select::select_canary") is False else "NOT refuted"
+    if sel is not None:
+        canaries["verus:select-wrong-contract"] = "refuted" if bd.get("select::select_canary") is False else "NOT refuted"
+    else:
+        edits.append(arith_dropped)
     # ---- decision
     violations = [(n, r) for n, r in results.items() if r["status"] == "failed"]
     for n, r in results.items():
